@@ -20,7 +20,7 @@ Lemma skel_Initialize_ok : skel_Initialize =
 Proof. reflexivity. Qed.
 
 Lemma skel_loadRules_ok : skel_loadRules =
-  [DeferE [IfE "_v7 != nil" [Ret] []; Call "adjustRule"; IfE "_v8 != nil" [Ret] []; IfE "_v9" [Ret] []]; Call "LoadRules"; IfE "_v3 != nil" [Ret] []; ForE [Call "SaveRule"; IfE "_v3 != nil" [Ret] []]; ForE [Call "DeleteRule"; IfE "_v3 != nil" [Ret] []]; Ret].
+  [DeferE [IfE "_v7 != nil" [Ret] []; Call "adjustRuleContent"; IfE "_v8 != nil" [Ret] []; IfE "_v9" [Ret] []]; Call "LoadRules"; IfE "_v3 != nil" [Ret] []; ForE [Call "SaveRule"; IfE "_v3 != nil" [Ret] []]; ForE [Call "DeleteRule"; IfE "_v3 != nil" [Ret] []]; Ret].
 Proof. reflexivity. Qed.
 
 Lemma skel_loadGroups_ok : skel_loadGroups =
@@ -219,6 +219,14 @@ Lemma body_jsonEquals_ok : body_jsonEquals =
   ["_v2, _ := json.Marshal(_v0)"; "_v3, _ := json.Marshal(_v1)"; "return bytes.Equal(_v2, _v3)"].
 Proof. reflexivity. Qed.
 
+Lemma body_RuleManager_adjustRule_ok : body_RuleManager_adjustRule =
+  ["return _v0.adjustRuleContent(_v1, _v2, true)"].
+Proof. reflexivity. Qed.
+
+Lemma body_RuleManager_loadRules_ok : body_RuleManager_loadRules =
+  ["var _v1 []*Rule"; "var _v2 []string"; "_v3 := _v0.storage.LoadRules(func(_v4, _v5 string) { var _v6 Rule if _v7 := json.Unmarshal([]byte(_v5), &_v6); _v7 != nil { _v2 = append(_v2, _v4) return } if _v8 := _v0.adjustRuleContent(&_v6, """", false); _v8 != nil { _v2 = append(_v2, _v4) return } if _, _v9 := _v0.ruleConfig.rules[_v6.Key()]; _v9 { _v2 = append(_v2, _v4) return } if _v4 != _v6.StoreKey() { _v2 = append(_v2, _v4) _v1 = append(_v1, &_v6) } _v0.ruleConfig.rules[_v6.Key()] = &_v6 })"; "if _v3 != nil { return _v3 }"; "_v10 := make(map[string]struct{}, len(_v1))"; "for _, _v11 := range _v1 { if _v3 = _v0.storage.SaveRule(_v11.StoreKey(), _v11); _v3 != nil { return _v3 } _v10[_v11.StoreKey()] = struct{}{} }"; "for _, _v12 := range _v2 { if _, _v13 := _v10[_v12]; _v13 { continue } if _v3 = _v0.storage.DeleteRule(_v12); _v3 != nil { return _v3 } }"; "return nil"].
+Proof. reflexivity. Qed.
+
 Lemma body_RuleManager_GetAllRules_ok : body_RuleManager_GetAllRules =
   ["_v0.RLock()"; "defer _v0.RUnlock()"; "_v1 := make([]*Rule, 0, len(_v0.ruleConfig.rules))"; "for _, _v2 := range _v0.ruleConfig.rules { _v1 = append(_v1, _v2) }"; "sortRules(_v1)"; "return _v1"].
 Proof. reflexivity. Qed.
@@ -240,7 +248,7 @@ Lemma body_RuleManager_GetSplitKeys_ok : body_RuleManager_GetSplitKeys =
 Proof. reflexivity. Qed.
 
 Lemma adjust_rule_checks_ok : adjust_rule_checks =
-  ["_v3 != nil"; "_v3 != nil"; "len(_v1.EndKey) > 0 && bytes.Compare(_v1.EndKey, _v1.StartKey) <= 0"; "_v3 != nil"; "_v3 != nil"; "_v2 != _v1.GroupID"; "_v1.GroupID == """""; "_v1.ID == """""; "!validateRole(_v1.Role)"; "_v1.Count <= 0"; "_v1.Role == Leader && _v1.Count > 1"; "!validateOp(_v4.Op)"; "len(_v5) > 0 && !checkRule(_v1, _v5)"].
+  ["_v4 != nil"; "_v4 != nil"; "len(_v1.EndKey) > 0 && bytes.Compare(_v1.EndKey, _v1.StartKey) <= 0"; "_v4 != nil"; "_v4 != nil"; "_v2 != _v1.GroupID"; "_v1.GroupID == """""; "_v1.ID == """""; "!validateRole(_v1.Role)"; "_v1.Count <= 0"; "_v1.Role == Leader && _v1.Count > 1"; "!validateOp(_v5.Op)"; "len(_v6) > 0 && !checkRule(_v1, _v6)"].
 Proof. reflexivity. Qed.
 
 Lemma default_group_id_ok : default_group_id =
